@@ -10,7 +10,8 @@ its normalised (white-space and line-number independent) text:
                                                     assert_ne!/debug_assert*!)
   unwrap expect                                     `.unwrap()` / `.expect(`
   index slice                                       `e[i]` / `e[a..b]` in expression position
-  arith                                             binary `-` `/` `%` (and `-=` `/=` `%=`)
+  arith                                             binary `-` `/` `%` `+` `*` `<<` `>>`, their compound assignments and unary `-`, on
+                                                    operands that are not both literals (`+` of type bounds is recognised and skipped)
   cast                                              `as <integer type / char>`
   parse_quote format_ident ident_new                macros/functions of syn/quote that panic on bad input
   vecop                                             `.remove( .swap_remove( .split_at( .split_off( .drain(
@@ -51,10 +52,10 @@ MULTI = ["..=", "...", "<<=", ">>=", "::", "->", "=>", "..", "-=", "/=", "%=", "
 
 
 class Tok:
-    __slots__ = ("k", "t", "line")
+    __slots__ = ("k", "t", "line", "pos")
 
-    def __init__(self, k, t, line):
-        self.k, self.t, self.line = k, t, line
+    def __init__(self, k, t, line, pos=-1):
+        self.k, self.t, self.line, self.pos = k, t, line, pos
 
     def __repr__(self):
         return "%s:%r@%d" % (self.k, self.t, self.line)
@@ -104,7 +105,7 @@ def lex(src):
                 if j < n and src[j] == "\n":
                     line += 1
                 j += 1
-            toks.append(Tok("str", src[i:j + 1], start_line))
+            toks.append(Tok("str", src[i:j + 1], start_line, i))
             i = j + 1
             continue
         if m and "r" in (m.group(1) or ""):
@@ -112,7 +113,7 @@ def lex(src):
             j = i + len(m.group(0))
             end = src.find('"' + hashes, j)
             end = n if end < 0 else end
-            toks.append(Tok("str", src[i:end + 1 + len(hashes)], line))
+            toks.append(Tok("str", src[i:end + 1 + len(hashes)], line, i))
             line += src.count("\n", i, end)
             i = end + 1 + len(hashes)
             continue
@@ -127,7 +128,7 @@ def lex(src):
                     j += 1
             else:
                 j += 1
-            toks.append(Tok("char", "b" + src[i:j + 1], line))
+            toks.append(Tok("char", "b" + src[i:j + 1], line, i))
             i = j + 1
             continue
         if c == "'":
@@ -139,17 +140,17 @@ def lex(src):
                 j += 1
                 while src[j] != "'":
                     j += 1
-                toks.append(Tok("char", src[i:j + 1], line))
+                toks.append(Tok("char", src[i:j + 1], line, i))
                 i = j + 1
                 continue
             if i + 2 < n and src[i + 2] == "'":
-                toks.append(Tok("char", src[i:i + 3], line))
+                toks.append(Tok("char", src[i:i + 3], line, i))
                 i += 3
                 continue
             j = i + 1
             while j < n and _ID_CONT.match(src[j]):
                 j += 1
-            toks.append(Tok("life", src[i:j], line))
+            toks.append(Tok("life", src[i:j], line, i))
             i = j
             continue
         if _ID_START.match(c):
@@ -158,7 +159,7 @@ def lex(src):
                 j = i + 3
             while j < n and _ID_CONT.match(src[j]):
                 j += 1
-            toks.append(Tok("id", src[i:j], line))
+            toks.append(Tok("id", src[i:j], line, i))
             i = j
             continue
         if c.isdigit():
@@ -166,24 +167,24 @@ def lex(src):
             while j < n and (src[j].isalnum() or src[j] == "_" or
                              (src[j] == "." and j + 1 < n and src[j + 1].isdigit() and "." not in src[i:j])):
                 j += 1
-            toks.append(Tok("num", src[i:j], line))
+            toks.append(Tok("num", src[i:j], line, i))
             i = j
             continue
         if c in "([{":
-            toks.append(Tok("open", c, line))
+            toks.append(Tok("open", c, line, i))
             i += 1
             continue
         if c in ")]}":
-            toks.append(Tok("close", c, line))
+            toks.append(Tok("close", c, line, i))
             i += 1
             continue
         for mp in MULTI:
             if src.startswith(mp, i):
-                toks.append(Tok("p", mp, line))
+                toks.append(Tok("p", mp, line, i))
                 i += len(mp)
                 break
         else:
-            toks.append(Tok("p", c, line))
+            toks.append(Tok("p", c, line, i))
             i += 1
     return toks
 
@@ -350,13 +351,39 @@ def scan_file(rel, src):
                     is_slice = True
             add("slice" if is_slice else "index", chain_start(i - 1), partner[i], i)
         # arithmetic
-        if t.k == "p" and t.t in ("-", "/", "%", "-=", "/=", "%="):
-            binary = prev is not None and (prev.k in ("id", "num", "char") and prev.t not in KEYWORDS - {"self"}
-                                           or prev.t in (")", "]", "?"))
-            if t.t in ("-=", "/=", "%=") or binary:
-                lo = chain_start(i - 1)
-                hi = _operand_end(toks, partner, i + 1)
-                add("arith", lo, hi, i)
+        if t.k == "p" and t.t in ("-", "/", "%", "+", "*", "<", ">", "-=", "/=", "%=", "+=", "*=", "<<=", ">>="):
+            op = t.t
+            operand_before = prev is not None and (prev.k in ("id", "num", "char", "str") and prev.t not in KEYWORDS - {"self"}
+                                                   or prev.t in (")", "]", "?"))
+            width = 1
+            is_site = False
+            if op in ("-=", "/=", "%=", "+=", "*=", "<<=", ">>="):
+                is_site = True
+            elif op in ("-", "/", "%"):
+                if operand_before:
+                    is_site = True
+                elif op == "-" and nxt is not None and nxt.k != "num":
+                    is_site = True                       # unary minus on a non-literal
+            elif op == "+":
+                is_site = operand_before and not _is_bound_plus(toks, i)
+            elif op == "*":
+                is_site = operand_before and nxt is not None and (nxt.k in ("id", "num") or nxt.t in ("(", "-", "&", "*")) \
+                    and not (nxt.k == "id" and nxt.t in KEYWORDS - {"self"})
+            elif op in ("<", ">"):
+                # shifts: two glued angle brackets that are not generic brackets
+                if nxt is not None and nxt.t == op and nxt.pos == t.pos + 1 and operand_before \
+                        and not _is_generic_angle(toks, i, op):
+                    is_site, width, op = True, 2, op * 2
+            if is_site:
+                if operand_before or op.endswith("="):
+                    lo = chain_start(i - 1)
+                else:
+                    lo = i
+                hi = _operand_end(toks, partner, i + width)
+                left_lit = lo == i - 1 and toks[lo].k == "num"
+                right_lit = hi == i + width and toks[hi].k == "num"
+                if not (left_lit and right_lit and lo != i):
+                    add("arith", lo, hi, i)
         # casts
         if t.k == "id" and t.t == "as" and nxt is not None and nxt.k == "id" and nxt.t in INT_TYPES \
                 and prev is not None and prev.t not in ("<",) and not _in_use_or_qpath(toks, i):
@@ -392,6 +419,64 @@ def scan_file(rel, src):
         s["ord"] = k
         s["key"] = base + ("" if k == 0 else "#%d" % k)
     return sites
+
+
+def _is_bound_plus(toks, i):
+    """the `+` of `T: A + B`, `dyn A + 'a`, `impl Iterator<..> + Clone` (a type bound, not an addition)"""
+    prev, nxt = toks[i - 1], toks[i + 1] if i + 1 < len(toks) else None
+    if nxt is None:
+        return False
+    if nxt.k == "life" or nxt.t == "?":
+        return True
+    if prev.t == ">":                                   # `x > + y` is not an expression
+        return True
+    cap = lambda t: t.k == "id" and t.t[:1].isupper()
+    if cap(prev) and cap(nxt):
+        # nearest structural token before: a bound list follows `:`, `dyn`, `impl`, `where` or another bound `+`
+        j = i - 1
+        while j >= 0 and i - j < 40:
+            u = toks[j].t
+            if u in (":", "dyn", "impl", "where"):
+                return True
+            if u in ("=", "(", "{", ";", "return", "let", "==", "=>", "[") or toks[j].k in ("num", "str"):
+                return False
+            j -= 1
+    return False
+
+
+def _is_generic_angle(toks, i, op):
+    """toks[i], toks[i+1] are `<<` or `>>`: are they generic brackets (`Vec<<T as X>::Y>`, `Vec<Vec<_>>`)?"""
+    if op == "<":
+        j = i + 2
+        depth = 2
+        while j < len(toks) and j - i < 40:
+            u = toks[j].t
+            if u in (";", "{", "}"):
+                return False
+            if u == "as":
+                return True
+            if u == "<":
+                depth += 1
+            elif u == ">":
+                depth -= 1
+                if depth == 0:
+                    return True
+            j += 1
+        return False
+    # `>>`: generic if two unmatched `<` precede it in the statement
+    need, j = 2, i - 1
+    while j >= 0 and i - j < 80:
+        u = toks[j].t
+        if u in (";", "{", "}"):
+            break
+        if u == ">":
+            need += 1
+        elif u == "<":
+            need -= 1
+            if need == 0:
+                return True
+        j -= 1
+    return False
 
 
 def _match_branch(toks, fn_of, at):
